@@ -146,6 +146,17 @@ class Interp:
 
     def module_lookup(self, mod, name):
         env = self.module_env(mod)
+        limit = self.__dict__.setdefault('_import_line', {}).get(mod.name)
+        if limit is not None:
+            # a top-level statement of this module is being executed (as at import time): a name it reads is bound by an
+            # EARLIER statement, or not yet at all (`_type = type` before `def type`: the builtin)
+            prior = [s_ for s_ in mod.tree.body if s_.lineno < limit and name in M.bound_names(s_)]
+            if not prior and not any(star.lineno < limit for star in mod.stars):
+                return UNDEF
+            if prior and name not in env.vars:
+                for s_ in prior:
+                    self._exec_toplevel(mod, s_, env)
+                return env.vars.get(name, UNDEF)
         if name in env.vars:
             return env.vars[name]
         st = mod.binders.get(name)
@@ -163,13 +174,30 @@ class Interp:
             # execute the top-level statements binding this name, in source order (the last one wins)
             for s in mod.tree.body:
                 if name in M.bound_names(s):
-                    self.exec_stmt(s, env)
+                    self._exec_toplevel(mod, s, env)
             done = self.__dict__.setdefault('_patched', set())
             for s in mod.patches.get(name, ()):
                 if id(s) not in done:
                     done.add(id(s))
-                    self.exec_stmt(s, env)
+                    self._exec_toplevel(mod, s, env)
         return env.vars.get(name, UNDEF)
+
+    def _exec_toplevel(self, mod, s, env):
+        """execute one top-level statement of a module; while a plain assignment runs, the names it reads resolve as they
+        would at import time (bindings of earlier lines only)"""
+        lines = self.__dict__.setdefault('_import_line', {})
+        if isinstance(s, (ast.Assign, ast.AugAssign, ast.AnnAssign)):
+            old = lines.get(mod.name)
+            lines[mod.name] = s.lineno
+            try:
+                self.exec_stmt(s, env)
+            finally:
+                if old is None:
+                    lines.pop(mod.name, None)
+                else:
+                    lines[mod.name] = old
+        else:
+            self.exec_stmt(s, env)
 
     def _star_lookup(self, mod, star, name):
         if name.startswith('__') and name.endswith('__'):
@@ -208,6 +236,9 @@ class Interp:
             if first and name in e.globals_decl:
                 break
             if name in e.vars:
+                if e.parent is None and e.module is not None and self.__dict__.get('_import_line', {}).get(e.module.name) is not None \
+                        and self.menvs.get(e.module.name) is e:
+                    break           # module scope while one of its top-level statements runs: see module_lookup
                 v = e.vars[name]
                 if v is UNDEF:
                     raise PyExc('NameError', name)
@@ -1220,6 +1251,18 @@ class Interp:
                 from .values import SuperV
                 return SuperV(e.cls, self.lookup(e.func.node.args.args[0].arg, e))
             raise Unsupported('super() outside a method')
+        if isinstance(n.func, ast.Name) and n.func.id == 'eval' and len(n.args) == 1 and not n.keywords and \
+                self.lookup_is_builtin('eval', env):
+            # eval(text) of a CONCRETE text (e.g. the repr of a settings dict kept in a doc string): parsed and evaluated
+            # by this interpreter in the caller's scope, as python does
+            text = self.eval(n.args[0], env)
+            if not isinstance(text, str):
+                raise Unsupported('eval of a symbolic text')
+            try:
+                tree = ast.parse(text.strip(), mode='eval').body
+            except SyntaxError:
+                raise PyExc('SyntaxError', 'eval')
+            return self.eval(tree, env)
         f = self.eval(n.func, env)
         args = []
         for a in n.args:
